@@ -537,28 +537,77 @@ def eval_static(ctx, c, r, coqcases, owner):
         ctx.nontrivial(("static", c["what"], c["item"], i))
 
 
-def evaluate(ctx, cases):
-    s = ctx.scratch()
-    out, p = s.run_worker("c16_worker.py", dict(cases=cases, types=[t[0] for t in ITEMS]), timeout=1200)
+def classify(ctx, cases, results, sink):
+    """evaluate worker results; violations go to sink (list of (case, what, key)) instead of ctx"""
+    class Tmp:
+        pass
+    seqcases, owner, statics = [], [], []
+    real_violation = ctx.violation
+    ctx.violation = lambda case, what, key=None: sink.append((case, what, key))
+    try:
+        for c, r in zip(cases, results):
+            if "error" in r:
+                ctx.violation(c, "harness could not run the case: " + r["error"])
+                continue
+            if "crash" in r:
+                ctx.violation(c, "the interpreter died (signal/exit %s) while running this operation sequence" % r["crash"])
+                continue
+            if c["kind"] == "static":
+                eval_static(ctx, c, r, statics, None)
+            else:
+                eval_seq(ctx, c, r, seqcases, owner)
+    finally:
+        ctx.violation = real_violation
+    return seqcases, owner, statics
+
+
+def case_id(c):
+    import json
+    return json.dumps({k: v for k, v in c.items() if k != "ops"}, sort_keys=True) + json.dumps(c.get("ops", [])[:0])
+
+
+def evaluate(ctx, cases, asan=False):
+    s = ctx.scratch(asan=asan)
+    chunk = 1 if len(cases) <= 40 else 25
+    out, p = s.run_worker("c16_worker.py", dict(cases=cases, types=[t[0] for t in ITEMS], chunk=chunk), timeout=2400)
     if out is None:
         ctx.violation(cases[0], "C16 worker crashed (rc=%s): %s" % (p.returncode, (p.stderr or p.stdout)[-1500:]))
         return
     for t, size, _ in ITEMS:
         if out["sizes"][t] != size:
             ctx.obligation_broken("C16 item table: sizeof(%s) = %d, harness says %d" % (t, out["sizes"][t], size))
-    seqcases, owner, statics = [], [], []
-    for c, r in zip(cases, out["results"]):
+    for c in cases:
         ctx.count(max(1, len(c.get("ops", []))))
-        if "error" in r:
-            ctx.violation(c, "harness could not run the case: " + r["error"])
-            continue
-        if "crash" in r:
-            ctx.violation(c, "the interpreter died with signal %s while running this operation sequence" % r["crash"])
-            continue
-        if c["kind"] == "static":
-            eval_static(ctx, c, r, statics, None)
-        else:
-            eval_seq(ctx, c, r, seqcases, owner)
+    first = []
+    seqcases, owner, statics = classify(ctx, cases, out["results"], first)
+    if first and chunk > 1:
+        # false-alarm hygiene and attribution: every case that showed a violation is run again, alone, in
+        # a fresh child; what is reported comes from that run (a victim of a neighbour's memory corruption
+        # does not reproduce).  If nothing reproduces the first-pass observation is reported as it is.
+        suspects, seen = [], set()
+        full = {id(c): c for c in cases}
+        for case, what, key in first:
+            orig = next((c for c in cases if c.get("item") == case.get("item") and c.get("init") == case.get("init")
+                         and c.get("n") == case.get("n") and c.get("kind") == case.get("kind")
+                         and c.get("ops", [])[:len(case.get("ops", []))] == case.get("ops", [])
+                         and c.get("i") == case.get("i") and c.get("what") == case.get("what")), case)
+            k = repr(sorted(orig.items(), key=lambda kv: kv[0]))
+            if k not in seen:
+                seen.add(k)
+                suspects.append(orig)
+        suspects = suspects[:60]
+        out2, p2 = s.run_worker("c16_worker.py", dict(cases=suspects, types=[t[0] for t in ITEMS], chunk=1), timeout=1200)
+        second = []
+        if out2 is not None:
+            saved = (ctx.cov["evaluations"], dict(ctx.extra.get("distribution", {})))
+            classify(ctx, suspects, out2["results"], second)
+        for case, what, key in (second or first):
+            ctx.violation(case, what, key)
+    else:
+        for case, what, key in first:
+            ctx.violation(case, what, key)
+    if asan:
+        return            # the sanitizer run only looks for crashes / sanitizer reports and wrong outcomes
     bad, outs, err = vlib.coq_mismatches(
         ["C16.Model"], "fun c => match c with (b, st, ops) => run_obs b st ops end", "obs_eqb", seqcases,
         prelude="Open Scope Z_scope.", shard=120)
@@ -598,7 +647,12 @@ def run(ctx):
         "conversion of Python values to item bytes is not modelled here (C03/C05); the harness supplies the bytes "
         "(struct / int.to_bytes) or the exception class, and the implementation is checked against them",
         "64-bit two's-complement Py_ssize_t and uintptr_t"]
-    evaluate(ctx, generate(ctx))
+    cases = generate(ctx)
+    evaluate(ctx, cases)
+    if ctx.thorough:
+        # the same sequences on a backend built with -fsanitize=address,undefined (first 600 + the statics)
+        sub = [c for c in cases if c["kind"] != "static"][:600] + [c for c in cases if c["kind"] == "static"]
+        evaluate(ctx, sub, asan=True)
 
 
 MANIFEST = dict(
